@@ -856,6 +856,104 @@ func cmdRacePass(args []string) int {
 		nLarge++
 	}
 	fmt.Printf("racepass large: %d shapes done\n", nLarge)
+	// phase 3: MANY goroutines at once (4 x GOMAXPROCS, at least 64): resources that are counted out
+	// (a semaphore, a pool of workers or slots) and nested uses of them
+	many := 4 * runtime.GOMAXPROCS(0)
+	if many < 64 {
+		many = 64
+	}
+	for r := 0; r < 3; r++ {
+		f := c20NewFixture()
+		var wg sync.WaitGroup
+		start := make(chan struct{})
+		for g := 0; g < many; g++ {
+			wg.Add(1)
+			go func(g int) {
+				defer wg.Done()
+				<-start
+				defer func() { recover() }()
+				bs[(g+r)%len(bs)].run(f, func() { runtime.Gosched() })
+			}(g)
+		}
+		close(start)
+		fin := make(chan struct{})
+		go func() { wg.Wait(); close(fin) }()
+		select {
+		case <-fin:
+		case <-time.After(3 * time.Minute):
+			fmt.Printf("racepass HANG: %d goroutines running the thread bodies at once on fresh shared tensors did not finish within 3 minutes; goroutines:\n", many)
+			buf := make([]byte, 1<<16)
+			buf = buf[:runtime.Stack(buf, true)]
+			fmt.Printf("%s\n", buf)
+			return 3
+		}
+	}
+	fmt.Printf("racepass many: 3 rounds x %d goroutines done\n", many)
+	// phase 4: FIRST uses. Whatever the library builds lazily per shape, size or rank (a table of
+	// seeds, a scratch buffer, a cached constant) is built the first time that shape is seen - once per
+	// process. Every round uses shapes no earlier round used, in three goroutines at once: forward
+	// operations on a shared tensor of the new shape and a private back-propagation from a root of
+	// that shape.
+	nFirst := 0
+	for r := 0; r < 60; r++ {
+		s := []int{2 + r%6, 3 + r/6, 1 + r%2}
+		if r%3 == 0 {
+			s = []int{7 + r}
+		}
+		shared := rt.Make(enum.Generic(s, uint64(3000+r), 0.5, 2, true), false)
+		var wg sync.WaitGroup
+		start := make(chan struct{})
+		bad := make([]string, 3)
+		for g := 0; g < 3; g++ {
+			wg.Add(1)
+			go func(g int) {
+				defer wg.Done()
+				defer func() {
+					if p := recover(); p != nil {
+						bad[g] = fmt.Sprint(p)
+					}
+				}()
+				<-start
+				x := rt.Make(enum.Generic(s, uint64(4000+10*r+g), 0.5, 2, true), true)
+				y, err := x.Mul(shared)
+				if err != nil {
+					bad[g] = err.Error()
+					return
+				}
+				z := y.Tanh()
+				if len(s) >= 2 {
+					if t, err := z.Transpose(); err == nil {
+						z = t
+					}
+				}
+				if fl, err := z.Flatten(0); err == nil {
+					z = fl
+				}
+				_ = shared.Sum()
+				if _, err := shared.SumAlong(0); err != nil {
+					bad[g] = err.Error()
+					return
+				}
+				if err := tensor.BackPropagate(z); err != nil {
+					bad[g] = err.Error()
+					return
+				}
+				if x.Gradient() == nil {
+					bad[g] = "no gradient"
+				}
+			}(g)
+		}
+		close(start)
+		wg.Wait()
+		for g := range bad {
+			if bad[g] != "" {
+				fmt.Printf("racepass FIRSTUSE: round %d, shape %v (never used before in this process), goroutine %d: %s\n", r, s, g, bad[g])
+				return 5
+			}
+		}
+		nFirst++
+	}
+	fmt.Printf("racepass firstuse: %d rounds done\n", nFirst)
 	fmt.Printf("racepass complete: %d pairs x %d repetitions x 3 goroutines; %d large shared tensors x 3 goroutines x 3 repetitions\n", pairs, reps, nLarge)
 	return 0
 }
@@ -896,6 +994,21 @@ func c20Post(tier string, seed int64, m *core.Part) {
 		path := filepath.Join(dir, "race_pass_hang.txt")
 		os.WriteFile(path, out, 0o644)
 		m.Violations = append(m.Violations, core.ViolationRec{CaseID: "racepass", Detail: fmt.Sprintf("the free-running pass (thread bodies on real goroutines) did not finish: goroutines block each other (deadlock). %s", hangLine(string(out))), Replay: path})
+		return
+	}
+	if strings.Contains(string(out), "racepass FIRSTUSE") {
+		dir := filepath.Join(core.VerifDir, "replays", "C20")
+		os.MkdirAll(dir, 0o755)
+		path := filepath.Join(dir, "race_pass_firstuse.txt")
+		os.WriteFile(path, out, 0o644)
+		line := ""
+		for _, l := range strings.Split(string(out), "\n") {
+			if strings.HasPrefix(l, "racepass FIRSTUSE") {
+				line = l
+				break
+			}
+		}
+		m.Violations = append(m.Violations, core.ViolationRec{CaseID: "racepass", Detail: "free-running pass, first uses of new shapes by three goroutines at once: " + line, Replay: path})
 		return
 	}
 	if strings.Contains(string(out), "racepass NONDETERMINISTIC") {
